@@ -27,7 +27,8 @@ DOC = {
         "C15-R2": "that try is inside `with <TeeContext>`; TeeContext.__exit__ restores sys.stdout on every path, returns falsy and cannot raise; sys.stdout is assigned nowhere else in the package",
         "C15-R3": "every attribute load on the optimiser result in create_result is guarded by the success test; the InitialParameterError test dominates every evaluation; the fallback to the history precedes the re-evaluation on the failure path",
         "C15-R4": "the three validation raises of Optimizer.__init__ dominate the first OptimizationGroup construction; an unknown residual function raises UnsupportedResidualFunctionError in the provider constructor",
-        "C15-R5": "the parameter history is appended only after every group of the evaluation was calculated",
+        "C15-R5": "the parameter history is appended only after every group of the evaluation was calculated; ParameterHistory.append stores one record on every non-raising path (the record count is what create_result uses to tell 'initial parameters failed' from 'a later evaluation failed' and to pick record -2)",
+        "C15-R6": "the record restored after a fault is read back through the inverse of the transform it was written with (history pair, shared with C11-R4)",
     },
     "declined": [
         "which history record is restored for each fault position (value of the index, depends on the run)",
@@ -393,9 +394,65 @@ def r5(ctx) -> None:
                        "the parameter history may only be appended in __init__ (initial) and calculate_penalty")
 
 
+def r1_escape(ctx) -> None:
+    """Model evaluations made by the public optimize() outside the handler discipline of Optimizer.optimize."""
+    repo = ctx.repo
+    pub = ctx.fn("glotaran/optimization/optimize.py", "optimize")
+    create = ctx.fn(OPT, "Optimizer.create_result")
+    ctx.touch(pub)
+    # what the public entry point calls after/besides Optimizer.optimize
+    called = {c.func.attr for c in lib.calls(pub) if isinstance(c.func, ast.Attribute)}
+    ctx.ob("C15-R1", "optimize/entry-sequence", {"optimize", "create_result"} <= called, pub, pub.node,
+           "the public optimize() runs Optimizer.optimize() (handler discipline checked above) and then create_result()",
+           construct="optimizer.optimize(); return optimizer.create_result()")
+    evals = []
+    for fi in (pub, create):
+        for c in lib.calls(fi):
+            if isinstance(c.func, ast.Attribute) and c.func.attr in ("calculate_penalty", "calculate", "objective_function"):
+                evals.append((fi, c))
+    ctx.sites("C15-R1", "model evaluations outside Optimizer.optimize", len(evals), 1)
+    for fi, c in evals:
+        tr = None
+        for a in lib.ancestors(c, fi.node):
+            if isinstance(a, ast.Try) and lib.field_of(c, a) == "body" and any(
+                    h.type is None or norm(h.type) in ("Exception", "BaseException") for h in a.handlers):
+                tr = a
+                break
+        ctx.ob("C15-R1", f"{fi.short}/evaluation-contained", tr is not None, fi, lib.stmt_of(c),
+               "a model evaluation made while building the result is not covered by the try/except of Optimizer.optimize: an exception "
+               "raised there propagates even with raise_exception=False instead of yielding a Result with success False",
+               construct=lib.short(lib.stmt_of(c), 100))
+
+
+def r5_records(ctx) -> None:
+    PH = "glotaran/parameter/parameter_history.py"
+    ap = ctx.fn(PH, "ParameterHistory.append")
+    cfg = lib.cfg(ap)
+    recs = [lib.stmt_of(c) for c in lib.method_calls(ap, "append") if lib.chain_text(c.func.value) == "self._parameters"]
+    ctx.sites("C15-R5", "history record store", len(recs), 1)
+    ok = bool(recs) and not cfg.exists_path(cfg.entry, cfg.exit, avoid=recs, exc=False)
+    ctx.ob("C15-R5", "ParameterHistory.append/one-record-per-call", ok, ap, recs[0] if recs else ap.node,
+           "every call that returns stores a record: create_result counts records (== 1: the initial parameters failed) and restores "
+           "record -2 after a fault; a skipped record (e.g. 'same as the previous one') shifts both")
+    nr = ctx.fn(PH, "ParameterHistory.number_of_records")
+    rets = lib.nodes(nr, ast.Return)
+    ok = len(rets) == 1 and norm(rets[0].value) == "len(self._parameters)"
+    ctx.ob("C15-R5", "ParameterHistory.number_of_records/counts-records", ok, nr, rets[0] if rets else nr.node, "the count is the number of stored records")
+    init = ctx.fn(OPT, "Optimizer.__init__")
+    first = [c for c in lib.method_calls(init, "append") if "history" in lib.chain_text(c.func.value)]
+    ctx.ob("C15-R5", "Optimizer.__init__/initial-record", len(first) == 1, init, first[0] if first else init.node,
+           "the history starts with exactly one record, the initial parameters")
+
+
+def r6(ctx) -> None:
+    from glint.rules import c11
+
+    c11.history_pair(ctx, "C15-R6")
+
+
 def check(ctx) -> None:
     for g in check.groups:
         g(ctx)
 
 
-check.groups = [r1_r2, r2_tee, r3, r4, r5]
+check.groups = [r1_r2, r1_escape, r2_tee, r3, r4, r5, r5_records, r6]
